@@ -20,7 +20,8 @@ func init() {
 			"(and the token.File receiving the table is the one created for that section, identified by object, not by name); R4 rejection means no rewrite — when loadPatches fails Run returns before target discovery. " +
 			"NOT decided: the arithmetic itself (off-by-one constants, token.File line-info semantics)." +
 			" R2 also: no uncounted front cut between the header line and the validated name." +
-			" R6 positions are resolved by the FileSet.",
+			" R6 positions are resolved by the FileSet." +
+			" R2 also: a diagnostic positioned at the current token (metaParser.errf) quotes only the current token.",
 		Trusted:     commonTrusted,
 		Assumptions: commonAssumptions,
 	})
